@@ -486,6 +486,16 @@ def tables_coq(values) -> str:
     return f'{{| t_kh := {kh}; t_key := {key}; t_cid := {cid}; t_addr := {addr} |}}'
 
 
+def checksums_coq(values) -> str:
+    """double-SHA-256 checksums (the only oracle of the concrete texts kh_text / cid_text of Compare.v) for every
+    key_hash and chain_id among the values: list of (prefix ++ payload, 4 bytes)."""
+    acc = {'kh': {}, 'key': {}, 'cid': {}, 'addr': {}}
+    for v in values:
+        collect_texts(v, acc)
+    bodies = [PREFIX[KH_PREFIX[c]] + p for (c, p) in acc['kh']] + [PREFIX['Net'] + p for p in acc['cid']]
+    return lib.clist(f'({cb(b)}, {cb(hashlib.sha256(hashlib.sha256(b).digest()).digest()[:4])})' for b in bodies)
+
+
 def texts_respect_order(values) -> str | None:
     """The law the theorems assume of the oracle (texts_ok), checked on the texts actually used:
     key-hash / chain-id text order = (scheme, payload) order. Returns a reason or None."""
